@@ -1,24 +1,23 @@
-(* C02 — PseudoNetCDFFile.sliceDimensions (core/_files.py).  Executable model, no proofs.
-   Arrays are flat C-order cell lists with explicit shapes (Base/ArrFlat.v); cells are abstract.
+(* C02 — PseudoNetCDFFile.sliceDimensions (core/_files.py) AS REPAIRED by
+   fixes/C02-slice-orthogonal-per-axis.patch, C02-zip-keep-masks.patch, C02-zip-with-ints.patch.
+   Executable model, no proofs.
+   Arrays are flat C-order cell lists with explicit shapes (Base/ArrFlat.v); cells are abstract
+   (a mask is part of the cell; the repaired code moves cells with numpy.ma throughout).
 
    spec_* : what the property demands — orthogonal per-axis selection (ints kept as length-1 axes);
             with >= 2 equal-length lists on one variable the pointwise (zipped) selection along
             one new axis placed where the first list axis was.
    impl_* : what the code does —
-            newvals = varo[sliceo]            numpy mixed basic/advanced indexing (np_index)
-            newvaro[...] = newvals            broadcasting assignment into the pre-shaped target
-            except: newvals.reshape(shape)    C-order reshape fallback
-            and the `needsfancy` point loop (expand_dims at argmax(isdarray), concatenate there). *)
+            newvals = varo[...]; for axi, si in enumerate(sliceo):        one axis at a time,
+                newvals = newvals[(slice(None),) * axi + (si,)]            ints as [i] (seq_take)
+            newvaro[...] = newvals                broadcasting assignment into the pre-shaped target
+            except: newvals.reshape(shape)        C-order reshape fallback
+            and the `needsfancy` point loop: ints and list elements as scalars, expand_dims and
+            concatenate at pointax = number of sliced axes before the first list. *)
 From PNC Require Import Base.Util Base.ArrFlat.
 
 Section Slice.
 Context {A : Type}.
-(* what np.concatenate (not np.ma.concatenate) does to a cell of a masked variable in the
-   point loop: the mask is dropped and the underlying value shows.  Identity on unmasked cells. *)
-Variable um : A -> A.
-(* same, when the point is a single cell (every axis indexed by a list): varo[i,j] is then the
-   constant numpy.ma.masked whose stored value is 0 *)
-Variable um0 : A -> A.
 
 (* ---------------------------------------------------------------- specification *)
 
@@ -77,27 +76,22 @@ Fixpoint first_list_pos (rs : list rsel) : nat :=
 Definition zip_shape (P : nat) (rs : list rsel) : list nat :=
   insert_at (first_list_pos rs) P (map rcount (filter (fun r => negb (is_list r)) rs)).
 
-(* ---------------------------------------------------------------- numpy indexing *)
+(* ---------------------------------------------------------------- per-axis selection *)
 
-Fixpoint drop_slices (rs : list rsel) : list rsel :=
-  match rs with RSlice l :: t => drop_slices t | _ => rs end.
-(* the selectors from the first to the last advanced index (ints and lists are "advanced"
-   as soon as one list is present) *)
-Definition adv_core (rs : list rsel) : list rsel := rev (drop_slices (rev (drop_slices rs))).
-(* a slice separates two advanced indices: numpy then puts the broadcast axis FIRST *)
-Definition adv_split (rs : list rsel) : bool := existsb is_slice (adv_core rs).
 Definition has_list (rs : list rsel) : bool := existsb is_list rs.
-Definition first_list (rs : list rsel) : list nat :=
-  match filter is_list rs with r :: _ => rindices r | [] => [] end.
-Definition np_first (rs : list rsel) : bool := has_list rs && adv_split rs.
 
-(* varo[sliceo] with at most one list: (shape, cells) *)
-Definition np_index (sh : list nat) (rs : list rsel) (d : list A) : list nat * list A :=
-  if np_first rs then
-    (length (first_list rs) :: map rcount (filter is_slice rs),
-     flat_map (fun ii => oslice sh (pointify ii rs) d) (seq 0 (length (first_list rs))))
-  else
-    (map rcount (filter (fun r => negb (is_int r)) rs), oslice sh rs d).
+(* newvals[(slice(None),) * k + (idxs,)] on an array of shape pre ++ [n] ++ post with
+   outer = prodn pre, inner = prodn post: under every outer index the selected sub-blocks *)
+Definition take_axis (outer n inner : nat) (idxs : list nat) (d : list A) : list A :=
+  flat_map (fun o => flat_map (fun i => chunk inner i (chunk (n * inner) o d)) idxs) (seq 0 outer).
+
+(* the loop over the axes: `outer` is the product of the already selected leading axes *)
+Fixpoint seq_take (outer : nat) (sh : list nat) (rs : list rsel) (d : list A) : list A :=
+  match sh, rs with
+  | n :: sh', r :: rs' =>
+      seq_take (outer * rcount r) sh' rs' (take_axis outer n (prodn sh') (rindices r) d)
+  | _, _ => d
+  end.
 
 (* ---------------------------------------------------------------- assignment into the target *)
 
@@ -125,35 +119,38 @@ Definition assign (tsh ssh : list nat) (d : list A) : option (list A) :=
   then Some (bdata (pad_left (length tsh) ssh) tsh d)
   else if Nat.eqb (length d) (prodn tsh) then Some d else None.
 
+(* the selected array already has one axis per selector (ints gave length-1 axes) *)
 Definition impl_slice_var (sh : list nat) (rs : list rsel) (d : list A) (tsh : list nat) : option (list A) :=
-  let '(ssh, sd) := np_index sh rs d in assign tsh ssh sd.
+  assign tsh (spec_shape rs) (seq_take 1 sh rs d).
 
 (* ---------------------------------------------------------------- the needsfancy point loop *)
 
-Definition nints (rs : list rsel) : nat := length (filter is_int rs).
-Definition slices_before_adv (rs : list rsel) : nat := length rs - length (drop_slices rs).
+(* pointax: number of sliced axes before the first list *)
+Fixpoint slices_before_list (rs : list rsel) : nat :=
+  match rs with
+  | [] => 0
+  | r :: t => if is_list r then 0 else (if is_slice r then 1 else 0) + slices_before_list t
+  end.
 
-(* shape of varo[sliceoi] for one point: ints are wrapped as [i] (advanced, shape (1,)), list
-   elements are scalars; with no int the index is basic and only the slice axes remain *)
-Definition point_shape (rs : list rsel) : list nat :=
-  let sc := map rcount (filter is_slice rs) in
-  if Nat.ltb 0 (nints rs)
-  then insert_at (if adv_split rs then 0%nat else slices_before_adv rs) 1%nat sc
-  else sc.
+(* shape of varo[sliceoi] for one point: ints and list elements are scalars (basic indexing),
+   only the sliced axes remain *)
+Definition point_shape (rs : list rsel) : list nat := map rcount (filter is_slice rs).
 
-(* np.concatenate(point_arrays, axis=k) of P arrays of shape psh (psh[k] = 1) *)
-Definition concat_axis (k P : nat) (psh : list nat) (pts : nat -> list A) : list A :=
-  let outer := prodn (firstn k psh) in
-  let inner := prodn (skipn (S k) psh) in
-  flat_map (fun o => flat_map (fun ii => chunk inner o (pts ii)) (seq 0 P)) (seq 0 outer).
+(* np.ma.concatenate of P point arrays of shape ps along a new axis inserted at position a
+   (expand_dims then concatenate), by recursion on the axis: at axis 0 the points follow each
+   other; at a deeper axis the same is done under every leading index *)
+Fixpoint concat_rec (a : nat) (ps : list nat) (P : nat) (pts : nat -> list A) : list A :=
+  match a, ps with
+  | S a', n :: ps' =>
+      flat_map (fun j => concat_rec a' ps' P (fun ii => chunk (prodn ps') j (pts ii))) (seq 0 n)
+  | _, _ => flat_map pts (seq 0 P)
+  end.
 
 Definition impl_zip_var (P : nat) (sh : list nat) (rs : list rsel) (d : list A) (tsh : list nat)
   : option (list A) :=
-  let c := first_list_pos rs in
+  let a := slices_before_list rs in
   let ps := point_shape rs in
-  if Nat.ltb (length ps) c then None            (* np.expand_dims: AxisError *)
-  else assign tsh (insert_at c P ps)
-         (map (match ps with [] => um0 | _ => um end) (concat_axis c P (insert_at c 1%nat ps) (fun ii => oslice sh (pointify ii rs) d))).
+  assign tsh (insert_at a P ps) (concat_rec a ps P (fun ii => oslice sh (pointify ii rs) d)).
 
 (* ---------------------------------------------------------------- whole file *)
 
@@ -206,13 +203,6 @@ Definition slice_file_with
 Definition impl_slice_file := slice_file_with false impl_slice_var impl_zip_var.
 Definition spec_slice_file :=
   slice_file_with true (fun sh rs d _ => Some (oslice sh rs d)) (fun P sh rs d _ => Some (zslice P sh rs d)).
-
-(* ---------------------------------------------------------------- proved / known-defect domains *)
-
-(* non-fancy variable: numpy keeps the broadcast axis in place *)
-Definition dom_var (rs : list rsel) : bool := negb (np_first rs).
-(* zipped variable: no integer selector on it *)
-Definition dom_zip (rs : list rsel) : bool := Nat.eqb (nints rs) 0.
 
 End Slice.
 
